@@ -208,6 +208,12 @@ def py_eq(R, a, b):
         return same
     if isinstance(a, TagV) or isinstance(b, TagV):
         return tag_eq(R, a, b)
+    if isinstance(a, MapV) and isinstance(b, MapV):
+        if (a.kkind, a.vkind) != (b.kkind, b.vkind):
+            return False
+        if not R.spec_mode and not (seq_equal_ok(R, a.kkind) and seq_equal_ok(R, a.vkind)):
+            raise OutOfReach('== on maps without structural __eq__ on keys/values')
+        return a.arr == b.arr      # absent keys are `none`, so equal maps have equal arrays
     if a is None or b is None:
         if a is None and b is None:
             return True
